@@ -166,6 +166,8 @@ Fixpoint lookup (e : env) (x : string) : option (option val) :=
 Definition object_named (names : list string) (x : string) : option nat :=
   (fix go (l : list string) (i : nat) := match l with [] => None | y :: r => if String.eqb x y then Some i else go r (S i) end) names 0%nat.
 
+Definition is_ident (x : expr) (n : string) : bool := match x with EIdent y => String.eqb y n | _ => false end.
+
 Section Eval.
   Variable names : list string.       (* object ids, in world order *)
   Variable this : nat.                (* the root object *)
@@ -193,12 +195,17 @@ Section Eval.
         | VP None => Undef                                    (* null dereference *)
         | _ => Stuck "member of a non-object"
         end
-    | ECall (EMember (EIdent "Math") f) [a; b] =>
-        let? (av, st1) := eval st e a in let? (bv, st2) := eval st1 e b in
-        let? c := compare BLt av bv in
-        match c with VB lt => if String.eqb f "max" then Def ((if lt then bv else av), st2) else if String.eqb f "min" then Def ((if lt then av else bv), st2) else Stuck "Math"
-                   | _ => Stuck "Math" end
     | ECall (EMember o m) args =>
+        if is_ident o "Math" then
+          match args with
+          | [a; b] =>
+              let? (av, st1) := eval st e a in let? (bv, st2) := eval st1 e b in
+              let? c := compare BLt av bv in
+              match c with VB lt => if String.eqb m "max" then Def ((if lt then bv else av), st2) else if String.eqb m "min" then Def ((if lt then av else bv), st2) else Stuck "Math"
+                         | _ => Stuck "Math" end
+          | _ => Stuck "Math"
+          end
+        else
         (* the receiver is evaluated first, then the arguments left to right (ECMAScript); see F16 for the implementation's order *)
         let? (ov, st1) := eval st e o in
         let? (avs, st2) := (fix go (l : list expr) (s : state) : res (list val * state) :=
@@ -308,14 +315,16 @@ Section Eval.
         (* ECMAScript order: the target object, then the value *)
         let? (ov, st1) := eval st e o in let? (v, st2) := eval st1 e r in
         match ov with VP (Some i) => let? st3 := write_prop st2 i p v in Def (ONormal, st3, e) | VP None => Undef | _ => Stuck "assign to a non-object" end
-    | SExpr (ECall (EMember (EIdent "console") f) args) =>
-        match log_level f with
-        | Some lv =>
-            let? (avs, st1) := (fix go (l : list expr) (s0 : state) : res (list val * state) :=
-                                  match l with [] => Def ([], s0) | a :: r => let? (v, s1) := eval s0 e a in let? (vs, s2) := go r s1 in Def (v :: vs, s2) end) args st in
-            Def (ONormal, {| objs := objs st1; trace := ELog lv avs :: trace st1 |}, e)
-        | None => Stuck "console"
-        end
+    | SExpr (ECall (EMember o f) args) =>
+        if is_ident o "console" then
+          match log_level f with
+          | Some lv =>
+              let? (avs, st1) := (fix go (l : list expr) (s0 : state) : res (list val * state) :=
+                                    match l with [] => Def ([], s0) | a :: r => let? (v, s1) := eval s0 e a in let? (vs, s2) := go r s1 in Def (v :: vs, s2) end) args st in
+              Def (ONormal, {| objs := objs st1; trace := ELog lv avs :: trace st1 |}, e)
+          | None => Stuck "console"
+          end
+        else let? (_, st1) := eval st e (ECall (EMember o f) args) in Def (ONormal, st1, e)
     | SExpr x => let? (_, st1) := eval st e x in Def (ONormal, st1, e)
     | SBlock ss =>
         let? (o, st1, e1) := run_seq exec ss st e in
